@@ -1011,20 +1011,26 @@ class ndarray:
         return mkbytes(out)
 
     def transpose(self, *axes) -> "ndarray":
-        if axes and axes != (None,):
-            raise UnsupportedInShim("transpose with explicit axes")
+        if len(axes) == 1 and isinstance(axes[0], (tuple, list)):
+            axes = tuple(axes[0])
+        if not axes or axes == (None,):
+            perm = tuple(reversed(range(self.ndim)))
+        else:
+            perm = tuple(a + self.ndim if a < 0 else a for a in (_as_index(a) for a in axes))
+            if sorted(perm) != list(range(self.ndim)):
+                raise ValueError("axes don't match array")
         if self.ndim < 2:
             return ndarray._mk(self.shape, self.dtype, self._buf, list(self._idx), self._writeable)
-        new_shape = tuple(reversed(self.shape))
+        new_shape = tuple(self.shape[p] for p in perm)
         strides = []
         s = 1
         for d in reversed(self.shape):
             strides.append(s)
             s *= d
         strides.reverse()
-        rstr = list(reversed(strides))
+        pstr = [strides[p] for p in perm]
         idx = [
-            self._idx[_b.sum(i * st for i, st in zip(combo, rstr))]
+            self._idx[_b.sum(i * st for i, st in zip(combo, pstr))]
             for combo in itertools.product(*[range(d) for d in new_shape])
         ]
         return ndarray._mk(new_shape, self.dtype, self._buf, idx, self._writeable)
@@ -1137,12 +1143,12 @@ class ndarray:
 
     def all(self, axis=None):
         if axis is not None:
-            raise UnsupportedInShim("all(axis=)")
+            return _reduce_axis(self, axis, _truthy_all)
         return _truthy_all([self._buf[p] for p in self._idx], self.dtype.code)
 
     def any(self, axis=None):
         if axis is not None:
-            raise UnsupportedInShim("any(axis=)")
+            return _reduce_axis(self, axis, _truthy_any)
         return _truthy_any([self._buf[p] for p in self._idx], self.dtype.code)
 
     def sum(self, axis=None, dtype=None):
@@ -2279,6 +2285,36 @@ def split(ary, indices_or_sections, axis=0):
 
 
 array_split = split
+
+def size(a, axis=None):
+    a = asarray(a)
+    return a.size if axis is None else a.shape[axis]
+
+
+def ndim(a):
+    return asarray(a).ndim
+
+
+def _reduce_axis(a, axis, f):
+    """all / any along one axis of a bool-like array"""
+    a = asarray(a)
+    if axis < 0:
+        axis += a.ndim
+    if not 0 <= axis < a.ndim:
+        raise ValueError(f"axis {axis} is out of bounds for array of dimension {a.ndim}")
+    moved = a.transpose(*([i for i in range(a.ndim) if i != axis] + [axis]))
+    k = a.shape[axis]
+    out_shape = moved.shape[:-1]
+    vals = []
+    for i in range(0, len(moved._idx), k) if k else []:
+        leaves = [moved._buf[p] for p in moved._idx[i:i + k]]
+        vals.append(f(leaves, a.dtype.code))
+    if not k:
+        n = _prod(out_shape)
+        vals = [f([], a.dtype.code)] * n
+    vals = [v if isinstance(v, (bool, SBool)) else mkbool(v) for v in vals]
+    return ndarray._mk(out_shape, _scalar_dt("b1"), vals, list(range(len(vals))))
+
 
 def ascontiguousarray(a, dtype=None):
     a = asarray(a, dtype) if dtype is not None else asarray(a)
